@@ -712,3 +712,35 @@ def read_path_not_memoised(P, R, rule):
             R.check(not hits, rule, g, hits[0] if hits else None, 'a function that reads the dataset from storage does not answer from a module-level table',
                     f'`{g.name}` answers from a module-level table instead of storage: stale after the dataset is rewritten', construct=f'table-cached storage read {g.name}')
     R.floor(rule, 'functions that read dataset files', nread, 3)
+
+
+def coordinate_truthiness(P, R, rule, modules, why):
+    """The corners of a query box are numbers, and 0 is one of them: a coordinate unpacked from a `bounds` argument is never tested for truth
+    (`x0 or default`, `if x0:`, `not x1`); "not given" can only be recognised with `is None`."""
+    n = 0
+    for m in P.mods.values():
+        if m.name not in modules:
+            continue
+        for f in m.funcs.values():
+            if isinstance(f.node, ast.Lambda):
+                continue
+            coords = set()
+            for st in walk_own(f.node):
+                if isinstance(st, ast.Assign) and isinstance(st.targets[0], ast.Tuple) and len(st.targets[0].elts) in (4, 6) and isinstance(st.value, ast.Name) \
+                        and 'bounds' in st.value.id and all(isinstance(e_, ast.Name) for e_ in st.targets[0].elts):
+                    coords |= {e_.id for e_ in st.targets[0].elts}
+            if not coords:
+                continue
+            n += 1
+            bad = []
+            for x in walk_own(f.node):
+                if isinstance(x, ast.BoolOp) and any(isinstance(v, ast.Name) and v.id in coords for v in x.values):
+                    bad.append(x)
+                if isinstance(x, (ast.If, ast.IfExp, ast.While)) and isinstance(x.test, ast.Name) and x.test.id in coords:
+                    bad.append(x.test)
+                if isinstance(x, ast.UnaryOp) and isinstance(x.op, ast.Not) and isinstance(x.operand, ast.Name) and x.operand.id in coords:
+                    bad.append(x)
+            R.check(not bad, rule, f, bad[0] if bad else None, f'{f.qualname}: the coordinates of the box are never tested for truth',
+                    f'`{norm(bad[0])[:60] if bad else ""}` in {f.qualname} tests a box coordinate for truth: the coordinate 0 (a box side on an axis) counts as "not given" and is replaced: {why}',
+                    construct=f'{f.qualname}: box coordinates tested for truth')
+    return n
